@@ -177,6 +177,66 @@ ROLES = {
 }
 
 
+def check_shared_blocks(acc: core.Acc) -> None:
+    """The same block OBJECT placed at several positions (siblings, different depths): serialise writes it at each place."""
+    def mk(name):
+        return Keyvalues(name, [Keyvalues('k', 'v'), Keyvalues('inner', [Keyvalues('x', '1')])])
+    shapes = {
+        'siblings': lambda b: [b, b],
+        'list_times_3': lambda b: [b] * 3,
+        'nested_and_sibling': lambda b: [Keyvalues('outer', [b, Keyvalues('y', '2')]), b],
+        'two_parents': lambda b: [Keyvalues('p1', [b]), Keyvalues('p2', [b])],
+        'shared_leaf': lambda b: [Keyvalues('p1', [b._value[0]]), Keyvalues('p2', [b._value[0]])],
+        'empty_shared': lambda b: [Keyvalues('e', []), Keyvalues('f', [])] + [Keyvalues('g', [])] * 2,
+    }
+    for sname, build_children in shapes.items():
+        for cfg in CORNER_CONFIGS:
+            acc.evaluations += 1
+            acc.nontrivial += 1
+            blk = mk('shared')
+            root = Keyvalues.root(*build_children(blk))
+            want = dump(root)
+            case = {'shared': sname, 'cfg': cfg}
+            try:
+                text = root.serialise(**cfg)
+                got = dump(Keyvalues.parse(text))
+            except Exception as exc:  # noqa: BLE001
+                acc.fail('shared_block_fails', case, f'tree with a shared block object ({sname}): {type(exc).__name__}: {exc}', gen='shared')
+                continue
+            if got != want:
+                acc.fail('roundtrip_differs', case, f'shared block ({sname}): {want} -> {got}', gen='shared')
+
+
+POLLUTERS = {
+    'single_block_leaf': lambda: Keyvalues.parse('"a" "b" }', single_block=True),
+    'single_block_block': lambda: Keyvalues.parse('"a" { "x" "y" } "z" "w"', single_block=True),
+    'parse_error_midway': lambda: Keyvalues.parse('"a" "b"\n"c" {\n"d"\n'),
+    'tokenizer_peek_abandoned': lambda: __import__('srctools.tokenizer', fromlist=['Tokenizer']).Tokenizer('"x" "y" {').peek(),
+    'tokenizer_pushback_abandoned': lambda: (lambda t: (t(), t.push_back(*t())))(__import__('srctools.tokenizer', fromlist=['Tokenizer']).Tokenizer('} "q" "r"')),
+    'serialise_other': lambda: Keyvalues('zz', [Keyvalues('a"b', 'c\\d')]).serialise(indent_braces=True, start_indent='\t\t'),
+}
+
+
+def check_after_polluter(acc: core.Acc) -> None:
+    """Histories: an unrelated earlier call (early-returning single_block parse, a parse error, an abandoned tokenizer,
+    another serialise) must not influence a later round trip (no state carried between calls)."""
+    docs = [[('L', 'a', 'b')], [('B', 'blk', [('L', 'k', 'v"q'), ('B', 'e', [])]), ('L', 'post', '2')], context(('L', 'n\\t', 'x y'))]
+    for pname, pol in POLLUTERS.items():
+        for specs in docs:
+            acc.evaluations += 1
+            acc.nontrivial += 1
+            try:
+                pol()
+            except Exception:  # noqa: BLE001 - the polluter may legitimately fail
+                pass
+            sub = core.Acc()
+            check_doc(sub, specs, CORNER_CONFIGS[:2], True, {'gen': 'history', 'role': pname})
+            if sub.fail_counts:
+                f = sub.all_failures()[0]
+                acc.fail('state_carried_between_calls', {'polluter': pname, 'specs': specs},
+                         f'after the unrelated call {pname!r}, the round trip of {specs} failed: {f.kind}: {f.detail[:400]}', gen='history', polluter=pname)
+
+
 def shard(spec) -> core.Acc:
     acc = core.Acc()
     kind = spec[0]
@@ -213,6 +273,9 @@ def shard(spec) -> core.Acc:
         for b in itertools.chain.from_iterable(itertools.product(SIGMA, repeat=k) for k in range(0, vmax + 1)):
             acc.nontrivial += 1
             check_doc(acc, context(('L', a, ''.join(b))), CORNER_CONFIGS[:1], False, {'gen': 'pair', 'role': 'leaf_pair'})
+    elif kind == 'extra':
+        check_shared_blocks(acc)
+        check_after_polluter(acc)
     elif kind == 'uni':
         _, role, lo, hi = spec
         targets = []
@@ -263,6 +326,7 @@ def run(ctx: core.Ctx) -> None:
                     shards.append(('role', role, ''.join(c), n))
     for a in itertools.chain.from_iterable(itertools.product(NAME_SIGMA, repeat=k) for k in range(0, 3)):
         shards.append(('pair', ''.join(a), 2 if (len(a) <= 1 or not ctx.quick) else 1))
+    shards.append(('extra',))
     step = 0x1000
     for role in ROLES:
         for lo in range(0, 0x110000, step):
@@ -276,12 +340,19 @@ def run(ctx: core.Ctx) -> None:
                 f'length <= {L} over a {len(SIGMA)}-character syntax alphabet (no CR/LF in names) in each of 4 roles inside a '
                 f'3-level context tree, and all (name, value) pairs of strings of length <= 2; (c) every Unicode scalar value '
                 f'alone and between two letters in each role ({"BMP in all roles, astral planes as leaf value" if ctx.quick else "all planes in all roles"}); each text re-parsed from str, file object, lines, characters '
-                f'(and every two-chunk split for the smallest documents). Non-trivial = every generated document (each is '
+                f'(and every two-chunk split for the smallest documents); trees sharing one block object at several places; round trips '
+                f'preceded by an unrelated call (early-returning single_block parse, parse error, abandoned tokenizer). Non-trivial = every generated document (each is '
                 f'enumerated once).')
 
 
 def replay(case: dict) -> list:
     acc = core.Acc()
+    if 'shared' in case:
+        check_shared_blocks(acc)
+        return [f for f in acc.all_failures() if f.case.get('shared') == case['shared']]
+    if 'polluter' in case:
+        check_after_polluter(acc)
+        return [f for f in acc.all_failures() if f.case.get('polluter') == case['polluter']]
 
     def tup(s):
         return (s[0], s[1], [tup(c) for c in s[2]]) if s[0] == 'B' else (s[0], s[1], s[2])
